@@ -9,6 +9,8 @@ def run(ctx):
     findings = load_findings('C03')
     translate(ctx, ['key'])
     lean_props(ctx)
+    from checks import C02 as c02mod
+    c02mod.key_tie(ctx, findings, 1500, 1500, own_property=False, relevant=lambda f: f['kind'] == 'unstable')   # C03 is about missing hits: only 'same components, different keys' counts
     if cargo_harness(ctx, ['h_lru']):
         w = ctx.work; e = env_offline(); e['VERIF_SEED'] = str(ctx.seed + 100)
         rc, out, dt = sh([harness_bin('h_lru'), 'gen', '600' if ctx.quick() else '20000', f'{w}/lru.trace', f'{w}/lru.json'], env=e, timeout=7200)
